@@ -269,11 +269,13 @@ func (vc *VC) appendSlices(name string, elem types.Type, a string, bv ssa.Value,
 	}
 	res := vc.define(name, "Slice", fmt.Sprintf("(mk_slice %s 0 (+ (s_len %s) %s))", ref, a, blen))
 	// content of the new array, and the definition of idx on the slices involved (trigger bridge)
-	vc.assume(fmt.Sprintf("(forall ((k Int)) (! (and (= (idx %s k) k) (= (idx %s k) (+ (s_off %s) k)) %s (=> (and (<= 0 k) (< k (s_len %s))) (= (select %s k) (select (select %s (s_ref %s)) (+ (s_off %s) k)))) (=> (and (<= (s_len %s) k) (< k (+ (s_len %s) %s))) (= (select %s k) %s))) :pattern ((idx %s k)) :pattern ((select %s k))))",
-		res, a, a, bidx, a, arr, h, a, a, a, a, blen, arr, bget, res, arr))
+	vc.assume(fmt.Sprintf("(forall ((k Int)) (! (and (= (idx %s k) k) (= (idx %s k) (+ (s_off %s) k)) %s (=> (and (<= 0 k) (< k (s_len %s))) (= (select %s k) (select (select %s (s_ref %s)) (+ (s_off %s) k)))) (=> (and (<= (s_len %s) k) (< k (+ (s_len %s) %s))) (= (select %s k) %s))) :pattern ((idx %s k)) :pattern ((idx %s k)) :pattern ((select %s k))))",
+		res, a, a, bidx, a, arr, h, a, a, a, a, blen, arr, bget, res, a, arr))
 	if !isStr {
 		// single-element append onto a slice that starts at offset 0: closed form, no quantifier needed
 		vc.assume(fmt.Sprintf("(=> (and (= (s_off %s) 0) (= (s_len %s) 1)) (= %s (store (select %s (s_ref %s)) (s_len %s) (select (select %s (s_ref %s)) (s_off %s)))))", a, b, arr, h, a, a, h, b, b))
+		// ground witness for the appended element (so that existential goals about it can be instantiated)
+		vc.assume(fmt.Sprintf("(=> (= (s_len %s) 1) (and (= (idx %s (s_len %s)) (s_len %s)) (= (select %s (s_len %s)) (select (select %s (s_ref %s)) (s_off %s)))))", b, res, a, a, arr, a, h, b, b))
 	}
 	vc.setH(vc.st, n, s, fmt.Sprintf("(store %s %s %s)", h, ref, arr))
 	return res
@@ -298,7 +300,24 @@ func (vc *VC) copySlices(name string, elem types.Type, d string, sv ssa.Value, s
 	vc.assume(fmt.Sprintf("(forall ((k Int)) (! (ite (and (<= (s_off %s) k) (< k (+ (s_off %s) %s))) (= (select %s k) %s) (= (select %s k) (select %s k))) :pattern ((select %s k))))",
 		d, d, n, arr, sget, arr, old, arr))
 	vc.setH(vc.st, hn, hs, fmt.Sprintf("(ite (= %s 0) %s (store %s (s_ref %s) %s))", n, h, h, d, arr))
+	// a copy that fills the whole destination from an equally long source transfers the abstract content
+	if es == "Int" && heapTypeKey(elem) == "uint8" {
+		var srcContent string
+		if vc.pre.sortOf(sv.Type()) == "Str" {
+			srcContent = fmt.Sprintf("(s2c %s)", s)
+		} else {
+			srcContent = fmt.Sprintf("(bcontent (select %s (s_ref %s)) (s_off %s) (s_len %s))", h, s, s, s)
+		}
+		vc.assume(fmt.Sprintf("(=> (and (= (s_len %s) %s) (not (= (s_ref %s) %s))) (= %s %s))", d, slen, d, refOfSrc(s, vc.pre.sortOf(sv.Type())), vc.contentOf(d, vc.st), srcContent))
+	}
 	return n
+}
+
+func refOfSrc(s, sort string) string {
+	if sort == "Str" {
+		return "(- 1)"
+	}
+	return "(s_ref " + s + ")"
 }
 
 // ---------- contracts at call sites ----------
